@@ -2,15 +2,28 @@
 from .. import common as C
 
 ID = "C09"
-MODULES = ["Helios.Props.C09", "Helios.Props.Facts", "Helios.Props.Code"]
+MODULES = ["Helios.Props.C09", "Helios.Props.Facts", "Helios.Props.CodeRL"]
 THEOREMS = [
     "Helios.RL.window_bound_sharp", "Helios.RL.window_bound", "Helios.RL.burst_bound",
     "Helios.RL.isolation", "Helios.RL.isolation_frame", "Helios.RL.fresh_full",
     "Helios.RL.idle_refill",
             "Helios.Facts.rl_cutoff_eq", "Helios.Facts.extraction_clean",
-            "Helios.CodeTie.refillTokens_refines", "Helios.CodeTie.allow_refines", "Helios.CodeTie.translation_clean"]
+            "Helios.CodeTie.refillTokens_refines", "Helios.CodeTie.allow_refines", "Helios.CodeTie.translation_clean_rl"]
 CUTOFF = 3600 * 10**9
 CLIENTS = ["a", "b", "10.0.0.1", "[::1]", "x,y", "%20", "A"]
+
+
+def crowd_episode(rng, others):
+    """one client spends its burst, then tens of thousands of other addresses are seen (a crawler
+    wave, a forged X-Forwarded-For sweep): the first client's spent bucket is still spent"""
+    mx = rng.choice([2, 3])
+    ops = ["rl new %d %d %d" % (mx, 3600 * 10**9, CUTOFF)]
+    for _ in range(mx + 1):
+        ops.append("rl allow victim 1000")
+    for i in range(others):
+        ops.append("rl allow c%d 1001" % i)
+    ops += ["rl allow victim 1002", "rl allow victim 1003", "rl allow c7 1003"]
+    return ops
 
 
 def gen_episode(rng, long=False):
@@ -113,7 +126,7 @@ def gate_episode(rng):
         c = rng.choice(clients)
         xff = c if rng.random() < 0.7 else c + rng.choice([", 10.9.9.9", ",192.0.2.1", " , 10.0.0.99"])
         tid += 1
-        ep.append("lb begin %d 0 %s - 192.0.2.50:4000" % (tid, lbgen_enc(xff)))
+        ep.append("lb begin %d 0 %s - 192.0.2.50:4000%s" % (tid, lbgen_enc(xff), " upg" if rng.random() < 0.2 else ""))
         ep.append("lb end %d 0 200" % tid)
     return ep
 
@@ -156,7 +169,7 @@ def check(ctx):
     d = C.Differential(ctx, binary)
     nep = 3000 if ctx.thorough() else 400
     corpus = C.load_corpus(ctx.prop)
-    episodes = corpus + [gen_episode(ctx.rng, long=ctx.thorough()) for _ in range(nep)]
+    episodes = corpus + [gen_episode(ctx.rng, long=ctx.thorough()) for _ in range(nep)] + [crowd_episode(ctx.rng, 70000 if ctx.thorough() else 6000)]
     # isolation (metamorphic): every episode is also run projected onto each of its clients
     pairs = []
     base_n = len(episodes)
